@@ -455,7 +455,7 @@ class OkImplies:
                     s = self.summary(cb)
                     if s is TOP:
                         return TOP
-                    return s | frozenset([("call-ok", strip_generics(name))])
+                    return s | frozenset([("call-ok", qual(name))])
         # a call of a local function: its own summary
         if f.get("res") and f.get("res_local"):
             cb = self.F.body(f["res"])
@@ -463,8 +463,8 @@ class OkImplies:
                 s = self.summary(cb)
                 if s is TOP:
                     return TOP
-                return s | frozenset([("call-ok", strip_generics(f["res"]))])
-        return frozenset([("call-ok", strip_generics(name))])
+                return s | frozenset([("call-ok", qual(f["res"]))])
+        return frozenset([("call-ok", qual(name))])
 
     def closure_bool_facts(self, cb):
         """facts implied by a bool-returning closure returning true"""
@@ -490,6 +490,30 @@ class OkImplies:
                 if pf is not TOP:
                     acc = _meet(acc, pf | self.bool_facts(cb, {"c": {"l": 0, "p": []}}, True))
         return frozenset() if acc is TOP else acc
+
+    def must_pass(self, body, target, pred):
+        """True iff every CFG path from the entry to `target` crosses an edge (or enters a block) whose facts satisfy pred"""
+        pf = self.path_facts(body)
+        seen = set()
+        st = [0]
+        while st:
+            b = st.pop()
+            if b in seen:
+                continue
+            seen.add(b)
+            f = pf.get(b)
+            if f is not None and f is not TOP and pred(f):
+                continue   # gate block: paths through it are fine
+            if b == target:
+                return False
+            for s in body.succs(b):
+                ef = self.edge_facts(body, b, s)
+                if ef is TOP:
+                    continue
+                if ef and pred(ef):
+                    continue   # gate edge
+                st.append(s)
+        return True
 
     def summary(self, body):
         """facts implied by body's return value being Ok/Some"""
